@@ -94,6 +94,7 @@ def r06_3(ctx):
                         bad = f"value bit {j} is read from byte {b[1]} bit {b[2]}, into which the setter stores the constant {sb}"
                     elif isinstance(sb, tuple) and sb[0] == 'a' and sb[2] != j:
                         bad = f"value bit {j} is read from byte {b[1]} bit {b[2]}, into which the setter stores value bit {sb[2]}"
+
                     if bad:
                         break
             if bad is None and not fp <= mod:
@@ -539,3 +540,121 @@ def _desc(b):
     if b[0] == 'b':
         return 'the old buffer content'
     return 'bits of ' + ','.join(sorted({f"arg{a[1]}" for a in atoms(b) if a[0] == 'a'})) or 'unknown'
+
+
+
+def _method_maps(F):
+    """view method -> may-define bytemap (strict evaluation where possible, else lenient and compositional)"""
+    out = {}
+    views = sorted(wire_views(F))
+    for adt in views:
+        for m in F.methods(adt):
+            try:
+                out[m.key] = setter_stores(F, m, adt)
+            except Undecided:
+                pass
+    for _ in range(2):
+        for adt in views:
+            for m in F.methods(adt):
+                if m.key in out and out[m.key]:
+                    continue
+                try:
+                    r = setter_stores(F, m, adt, lenient=True, submaps=out)
+                except Undecided:
+                    r = {}
+                if r:
+                    out[m.key] = r
+    return out
+
+
+@rule('R06.3b', ['C06', 'C10'], floor=25, clause='emission does not depend on previous buffer content: in every emit, a header byte that is written bit-wise has all of its bits defined, and no bit is left as an OR of the value with what the buffer held before')
+def r06_3b(ctx):
+    """Bit-provenance of the whole emit: the setters (and direct stores) an emit performs are composed in
+    order; a bit whose final provenance still contains its own previous content, or a bit of a partially
+    written byte that is never written, makes the emitted bytes depend on the prior buffer."""
+    F = ctx.F
+    maps = _method_maps(F)
+    ctx.need(len(maps) >= 130, f"evaluated view methods (found {len(maps)})")
+    n = 0
+    for k, b in sorted(F.bodies.items()):
+        if not (b.file or '').startswith('src/wire/') or k.rsplit('::', 1)[-1] not in ('emit', 'emit_header'):
+            continue
+        if not any(b.callee_name(x[1]) in maps for x in b.calls()):
+            continue
+        try:
+            M = setter_stores(F, b, None, lenient=True, submaps=maps)
+        except Undecided:
+            continue
+        if not M:
+            continue
+        n += 1
+        short = k.split('wire::', 1)[-1]
+        dirty, missing = [], []
+        for byte, bits in sorted(M.items()):
+            written = [i for i, x in enumerate(bits) if x != ('b', byte, i)]
+            for i, x in enumerate(bits):
+                if x == ('b', byte, i):
+                    if written:
+                        missing.append((byte, i))
+                elif x not in (0, 1) and any(a[0] == 'b' for a in atoms(x)):
+                    dirty.append((byte, i))
+        if dirty:
+            ctx.bad(f"{short}|stale-bits", f"{k}: byte/bit {dirty[:6]} end up as a mix of the emitted value and the PREVIOUS buffer content "
+                    "(a field is OR-ed in without being cleared first)", body=b)
+        if missing:
+            ctx.bad(f"{short}|undefined-bits", f"{k}: byte/bit {missing[:8]} of a header byte that is otherwise written are never defined: "
+                    "they keep what the buffer contained before", body=b)
+        if not dirty and not missing:
+            ctx.ok((short, 'all-bits-defined'), sample=dict(emit=short, bytes=sorted(M)[:8]))
+    ctx.need(n >= 20, f"emit bodies evaluated (found {n})")
+
+
+def _copy_of(b, op, L, depth=0):
+    if op[0] in ('c', 'm') and op[1] == [L, []]:
+        return True
+    if op[0] in ('c', 'm') and op[1][1] == [] and depth < 3:
+        ds = [d for d in b._all_defs().get(op[1][0], []) if d[3] == []]
+        if len(ds) == 1 and ds[0][2] == 'a' and ds[0][4][0] == 'use':
+            return _copy_of(b, ds[0][4][1], L, depth + 1)
+    return False
+
+
+@rule('R06.6b', ['C06', 'C10'], floor=5, clause='two pieces are never emitted at the same cursor position: between two writes that start at an accumulating cursor, the cursor is advanced')
+def r06_6b(ctx):
+    F = ctx.F
+    n = 0
+    for k, b in sorted(F.bodies.items()):
+        if not (b.file or '').startswith('src/wire/'):
+            continue
+        defs = _cursor_defs(b)
+        for L, ds in defs.items():
+            if not any(d[2] == 'acc' for d in ds):
+                continue
+            sites = []
+            for bi, bl in enumerate(b.blocks):
+                if bl['cl']:
+                    continue
+                for si, s in enumerate(bl['s']):
+                    if s[0] == 'a' and s[2][0] == 'agg' and str(s[2][1].get('adt', '')).startswith('std::ops::Range') and s[2][2] \
+                            and _copy_of(b, s[2][2][0], L):
+                        rl = s[1][0]
+                        for bj, bl2 in enumerate(b.blocks):
+                            t2 = bl2['t']
+                            if not bl2['cl'] and t2[0] == 'call' and 'index_mut' in (b.callee_name(t2[1]) or '') \
+                                    and any(a[0] in ('c', 'm') and a[1] == [rl, []] for a in t2[2]):
+                                sites.append(bj)
+            if not sites:
+                continue
+            defblocks = {d[0] for d in ds}
+            name = b.locals[L]['name']
+            for s1 in sites:
+                n += 1
+                t = b.blocks[s1]['t']
+                seen = b.reachable(start=t[4], cut_blocks=defblocks) if t[4] is not None else {}
+                hit = [s2 for s2 in sites if s2 in seen and s2 not in defblocks]
+                if hit:
+                    ctx.bad(f"{k.split('wire::', 1)[-1]}|{name}|same-position-twice", f"{k}: two writes start at the same value of cursor `{name}` "
+                            f"(lines {b.block_line(s1)} and {b.block_line(hit[0])}) with no advance in between: the second overwrites the first", body=b, bb=hit[0])
+                else:
+                    ctx.ok((k, name, s1), sample=dict(fn=k.split('wire::', 1)[-1], cursor=name))
+    ctx.need(n >= 5, f"cursor-positioned writes (found {n})")
